@@ -13,6 +13,7 @@ import CifModel.Lemmas.NumbWindow
 import CifModel.Lemmas.NumbLimbPass
 import CifModel.Lemmas.NumbLimbRound
 import CifModel.Lemmas.NumbLimbLink
+import CifModel.Lemmas.NumbLimbCarry
 /-
   Property C10 — number text and double values convert with correct rounding.
 
@@ -331,6 +332,24 @@ theorem C10_limbs_round_to_int (ds : List Nat) (units lsd : Nat) (hs : Small ds)
       roundToInt (natOfLimbs ds) (BBASE ^ (ds.length - (units + 1))) :=
   Lemmas.NumbLimbRound.roundToIntLimbs_eq ds units lsd hs hz hl hu
 
+open Model.NumbLimbs Lemmas.NumbLimbCarry in
+/-- **C10_limbs_carry_loop** (∀ arrays, ∀ rounding positions `r`): the carry propagation of to_digits after rounding —
+    `for (work_dig = lsd; *work_dig >= BBASE; ) { carry = *(work_dig--) / BBASE; *work_dig += carry; }`, applied
+    "iteratively, if necessary" — ends on a limb below 10⁹ (or at index 0), and the number the digit generation will
+    print (limbs up to the stopping position as they are, the limbs behind it modulo 10⁹ — only their low nine digits
+    are printed) is exactly the number the limbs `0..r` denoted before the loop.  A round-up that ripples through a
+    full limb of nines into a third limb (1999999999.96 at scale 1) is covered; a single carry step is not enough for
+    the first conclusion. -/
+theorem C10_limbs_carry_loop (fuel : Nat) (ds : List Nat) (r : Nat) (hr : r < ds.length) (hf : r < fuel) :
+    printedAt (carryLoop fuel ds r).1 (carryLoop fuel ds r).2 r = natOfLimbs (ds.take (r + 1)) ∧
+    ((carryLoop fuel ds r).1.getD (carryLoop fuel ds r).2 0 < BBASE ∨ (carryLoop fuel ds r).2 = 0) ∧
+    (carryLoop fuel ds r).2 ≤ r ∧ (carryLoop fuel ds r).1.length = ds.length := by
+  obtain ⟨a1, a2, a3⟩ := carryLoop_printed fuel ds r r (Nat.le_refl _) hr
+  refine ⟨?_, carryLoop_stops fuel ds r hf, a3, a2⟩
+  rw [a1]
+  unfold printedAt printed
+  simp [natOfLimbs]
+
 /-- FULL refinement statements of the limb level.  NOT yet proved as a whole: the pass and rounding theorems above are
     the loop invariants they rest on; what is missing is the index bookkeeping around them (reading the digits into the
     array, `units_digit`/`msd` positions against the exact logarithms, the `lsd` quirks, to_digits' carry loop and digit
@@ -343,6 +362,8 @@ def C10_limbs_refine_big_full : Prop :=
 
 /-! ### non-vacuity and regression examples -/
 
+-- the carry loop on |1|999999999|10⁹| (1999999999.96 rounded at scale 1): two steps, stops at index 0 with limb 2
+example : Model.NumbLimbs.carryLoop 156 [1, 999999999, 1000000000] 2 = ([2, 1000000000, 1000000000], 0) := by decide +kernel
 -- limb level = exact level on concrete inputs (ties, a limb of nines with carry ripple, a value rounding to zero)
 example : Model.NumbLimbs.toDoubleLimbs [9,0,0,7,1,9,9,2,5,4,7,4,0,9,9,5] 0 = some (.fin false 4503599627370498 1) := by decide +kernel
 example : Model.NumbLimbs.toDigitsLimbs 8388607999999832 (-22) 1 = some [2,0,0,0,0,0,0,0,0,0,0] := by decide +kernel
